@@ -39,6 +39,15 @@ CLAIMS = {
  "C16": dict(technique="TLC model checking of the pool-allocator state machine (spec/Pool.tla) + replay of TLC-simulated behaviours on the real MemoryPoolAllocator",
    text="spec/Pool.tla models the chunk list (only the head serves), bump allocation with AddChunk on overflow, both chunk policies, Realloc (no shrink, in-place growth iff most recent block and room, else copy), Clear and refcounted handles, with memory contents as per-word tags; TLC checks alignment, one-chunk containment, disjointness, undisturbed contents, accounting and pool lifetime exhaustively to a depth bound in 4-5 configurations (simple/adaptive policy, aligned and misaligned user buffer); simulated behaviours are replayed on MemoryPoolAllocator<tracking base allocator> and the same properties are evaluated on the real addresses, block contents, Size() and Capacity() after every step.",
    note="Chunk sizes are scaled (64/256 bytes, adaptive max 256 via -DSONIC_ALLOCATOR_MAX_CHUNK_CAPACITY) so that chunk edges are reached in short behaviours. Predicted Size()/Capacity() are DRIFT-only.", ref="4/C16"),
+ "C04": dict(technique="trace validation: recorded (spelling, parsed result) events judged by TLC with exact BigNat relations (NumberLex kind rule, Rounding!RoundsTo / Overflows)",
+   text="The library parses number spellings - TLC's structural classes (sign x integer-digit count x fraction-digit count x exponent form x pattern), exact midpoints between adjacent doubles for sampled binary exponents with their last-digit neighbours in every parser layout (incl. all digits before a bare exponent), one spelling per power-of-ten table row at 17 and 19 digits, fast-path edges, 19/20-digit integer boundaries, zeros with huge exponents, the overflow threshold, random - as root, array element, member value and after blanks; each recorded result is validated by TLC: integer kind and exact digits, or the correctly rounded double (ties to even, subnormals, signed zero), or the infinity error.",
+   note="Sample of an unbounded input space: the claim covers the explored spellings only. Input constructions (midpoints etc.) are computed in Python with exact integers and never decide a verdict.", ref="4/C04, 6"),
+ "C07": dict(technique="trace validation: recorded (double, printed text) events judged by TLC (Shortest!IsShortestRoundTrip + format clauses on BigNat)",
+   text="F64toa / Serialize output for bit patterns covering every binary exponent x boundary and random significands, every decade 1e-323..1e308 with neighbours, all powers of two +-1 ulp, integers near 2^53, the 1e21 / 1e-6 format switches, single-precision values, subnormals of every length and random doubles is validated by TLC: JSON number with fraction or exponent, at most 32 bytes, sign kept, reads back (nearest-even) to the same double, no decimal with fewer digits in the rounding interval, closest among same-length candidates; the library must also parse its own output back to the same bits.",
+   note="Sample of 2^64 inputs; claim limited to the explored set.", ref="4/C07, 6"),
+ "C08": dict(technique="trace validation: recorded (integer, printed text) events judged by TLC (Trace_Num!ItoaOk) + amplification sweep",
+   text="U64toa / I64toa / Dump output for TLC's structural classes (digit count x zero/nine group patterns), every 10^k-1,10^k,10^k+1 and 2^k+-1, 8-digit group patterns at each group position and random values per digit count is validated by TLC (optional '-', then exactly the digits) and re-parsed (kind and value kept); additionally all 10^8 values of each 8-digit group position are swept against a C++ transliteration of the same relation (amplification outside TLC).",
+   note="The exhaustive group sweeps are not TLC evaluations; they use a transliteration of Trace_Num!ItoaOk.", ref="4/C08"),
 }
 
 def main():
